@@ -323,10 +323,12 @@ def dropFrames : Option Val → List Frame
   | some (Val.memo _ ow) => [Frame.drop ow true]
   | _ => []
 
-/-- destructor of what a cleanup closure owns, run when the closure has been called and is dropped -/
-def closureFrames (c : Cleanup) : List Frame :=
+/-- destructor of what a cleanup closure owns, run when the closure has been called and is dropped;
+an `Owner` that is current (`cur`: the thread-local holds a clone while `Owner::with` runs) survives,
+it is dropped when the `with` that made it current returns -/
+def closureFrames (cur : List Nat) (c : Cleanup) : List Frame :=
   match c.drops with
-  | some ow => [Frame.drop ow true]
+  | some ow => if cur.contains ow then [] else [Frame.drop ow true]
   | none => []
 
 /-- the record after `mem::take` of the three lists in `cleanup` (contexts: ghost flag only) -/
@@ -347,8 +349,8 @@ def stepFrame (st : Core) : Frame → Core × List Frame
     | some r => (st.setOwner o (deadRec r), expand r o late)
     | none => (st, [])
   | .run c ow late =>
-    let st := logEv st (Ev.c c.tag c.cid ow late)
-    (if c.nested then newStored (regCleanup st (c.tag + 100) false none) c.tag else st, closureFrames c)
+    let st1 := logEv st (Ev.c c.tag c.cid ow late)
+    (if c.nested then newStored (regCleanup st1 (c.tag + 100) false none) c.tag else st1, closureFrames st.cur c)
   | .remove k _ => ({ st with arena := (st.arena.remove k).1 }, dropFrames (st.arena.remove k).2)
 
 def runFrames : Nat → Core → List Frame → Core × List Frame
@@ -520,7 +522,8 @@ structure St extends Core where
   obs : Option Sub := none
   acc : Int := 0
   memoDepth : Nat := 0
-  /-- how many `ImmediateEffect::new_mut` functions are on the call stack -/
+  /-- how many functions that must not write a signal are on the call stack (`ImmediateEffect::new_mut`
+functions, `AsyncDerived`s under construction) -/
   mutDepth : Nat := 0
   /-- ghost: a `watch` handler created an arena value / registered a cleanup / looked up a context
   while no `Owner::with` frame was active at all -/
@@ -699,11 +702,19 @@ def finishAsync (st : St) (e : Nat) : St :=
   | some er => { st with toCore := c2, effs := st.effs.set e { er with key := some k, held := false } }
   | none => { st with toCore := c2 }
 
+def setMutDepth (st : St) (d : Nat) : St := { st with mutDepth := d }
+
 /-- `AsyncDerived::new(|| { body; ready future })`: owner, first run at once under
-`owner.with_cleanup`, task spawned, then the arena item -/
+`owner.with_cleanup`, task spawned, then the arena item.  (No `z` writes while the value is being
+constructed: a notification that reaches a half-built `AsyncDerived` is outside the model.) -/
 def newAsync (ex : St → BOp → St) (st : St) (b : Nat) : St :=
   finishAsync
-    (addTask (runScoped ex (pushEager st b EffKind.async) st.effs.length (eagerOwner st) b) st.effs.length)
+    (addTask
+      (setMutDepth
+        (runScoped ex (setMutDepth (pushEager st b EffKind.async) (st.mutDepth + 1)) st.effs.length
+          (eagerOwner st) b)
+        st.mutDepth)
+      st.effs.length)
     st.effs.length
 
 /-! ### who holds an `Owner`
@@ -713,7 +724,8 @@ go: an owner handle, the task of an effect (until it returns), an `ImmediateEffe
 is dropped / its `new_scoped` closure has run), a scoped task (until its future is dropped). -/
 
 def effHolds (st : St) (o : Nat) (er : EffRec) : Bool :=
-  er.owner == o && (if er.kind.isImm then er.held || dropLive st er.dropCid else !er.done)
+  er.owner == o &&
+    (if er.kind.isImm then er.held || dropLive st er.dropCid || immRunning er else !er.done)
 
 def ownerHeld (st : St) (o : Nat) : Bool :=
   st.hOwners.contains (some o) || st.effs.any (effHolds st o)
@@ -746,6 +758,15 @@ def immEnd (st : St) (e : Nat) (rc : Nat) : St :=
       else { er with runDone := er.runDone + 1, runDoneMax := max rc er.runDoneMax, dirty := false }
     { st with effs := st.effs.set e er1 }
 
+/-- the outermost run has returned and nothing refers to the effect any more (its last handle was
+dropped while it was running): the notifying loop lets go of the `Arc` it had upgraded, the effect and
+its `Owner` go -/
+def immRelease (st : St) (e : Nat) : St :=
+  match st.effs[e]? with
+  | some er =>
+    if er.runStart == 0 && !(er.held || dropLive st er.dropCid) then releaseOwner st er.owner else st
+  | none => st
+
 /-- `update_if_necessary` of an `ImmediateEffect`: nothing while the owner is paused or the state is
 `Clean`; otherwise `owner.with_cleanup(|| with_observer(fun))` — also when an earlier run of the same
 effect is still in progress further up the call stack -/
@@ -760,7 +781,7 @@ def immUpdate (ex : St → BOp → St) (st : St) (e : Nat) : St :=
       let st := immBegin st e er
       let st := { st with mutDepth := d + (if er.kind.isMut then 1 else 0), immHit := st.immHit || hit }
       let st := runScoped ex st e er.owner er.body
-      immEnd { st with mutDepth := d } e (er.runStart + 1)
+      immRelease (immEnd { st with mutDepth := d } e (er.runStart + 1)) e
 
 def immTag (e : Nat) : Nat := 2000000000 + e
 def abortTag (e : Nat) : Nat := 1000000000 + e
@@ -1044,10 +1065,17 @@ def notifiedAgain (st : St) (e : Nat) : Bool :=
   | some er => !er.done && er.notified && !er.kind.isTask
   | none => false
 
+/-- the notification that arrived during the poll has also woken the task: its flag stays set -/
+def rewake (st : St) (e : Nat) : St :=
+  match st.effs[e]? with
+  | some er => { st with effs := st.effs.set e { er with woken := true } }
+  | none => st
+
 /-- one poll of effect `e`'s task: the loop goes round as long as a notification is waiting -/
 def pollLoop : Nat → St → Nat → St
   | 0, st, _ => st
-  | n + 1, st, e => if notifiedAgain (pollIter st e) e then pollLoop n (pollIter st e) e else pollIter st e
+  | n + 1, st, e =>
+    if notifiedAgain (pollIter st e) e then rewake (pollLoop n (pollIter st e) e) e else pollIter st e
 
 def pollEff (st : St) (e : Nat) : St := pollLoop 64 st e
 
